@@ -8,6 +8,7 @@ import (
 	"sort"
 	"strings"
 	"testing"
+	"time"
 
 	"pgregory.net/rapid"
 	"verif/harness/pbt"
@@ -174,4 +175,24 @@ func sigOf(s string) string {
 		s = s[:200]
 	}
 	return s
+}
+
+// TestWorldCost (development aid): S_COST=1 prints the set-up cost per family.
+func TestWorldCost(t *testing.T) {
+	if os.Getenv("S_COST") == "" {
+		t.Skip("development aid: set S_COST")
+	}
+	for k := 0; k < 4; k++ {
+		t0 := time.Now()
+		f := getFamily(k)
+		t1 := time.Now()
+		w, err := getWorld(f.SDL)
+		if err != nil {
+			t.Fatal(err)
+		}
+		t2 := time.Now()
+		_, _ = w.engine()
+		t3 := time.Now()
+		fmt.Printf("family %d: gqlparser %v, world %v, engine %v\n", k, t1.Sub(t0), t2.Sub(t1), t3.Sub(t2))
+	}
 }
